@@ -202,6 +202,41 @@ def install_events():
                 raise ContractViolation("FundamentalPriceShock.hooked_before_step_for_market", "no other market's fundamental price changes", m.market_id)
     wrap(FundamentalPriceShock, "hooked_before_step_for_market", fs_pre, fs_post)
 
+    # set-up of the shocks: parameters as configured, trigger time relative to the event's own session (C14)
+    def su_pre(ev, settings, *a, **k):
+        return dict(start=ev.session.session_start_time, settings=dict(settings))
+
+    def su_post(ev, c, res, settings, *a, **k):
+        F = type(ev).__name__ + ".setup"
+        cfg = c["settings"]
+        if ev.trigger_time != c["start"] + cfg["triggerTime"]:
+            raise ContractViolation(F, "C14 the trigger time is counted from the start of the event's own session", dict(trigger_time=ev.trigger_time, session_start=c["start"], triggerTime=cfg["triggerTime"]))
+        if ev.price_change_rate != cfg["priceChangeRate"] or ev.target_market is not ev.simulator.name2market[cfg["target"]]:
+            raise ContractViolation(F, "C14 rate and target market are the configured ones")
+        if isinstance(ev, OrderMistakeShock) and (ev.order_volume != cfg["orderVolume"] or ev.order_time_length != cfg["orderTimeLength"]):
+            raise ContractViolation(F, "C14 order volume and lifetime are the configured ones")
+        if isinstance(ev, FundamentalPriceShock) and "shockTimeLength" in cfg and ev.shock_time_length != cfg["shockTimeLength"]:
+            raise ContractViolation(F, "C14 the window length is the configured one")
+    wrap(FundamentalPriceShock, "setup", su_pre, su_post)
+    wrap(OrderMistakeShock, "setup", su_pre, su_post)
+
+    def rs_pre(ev, settings, *a, **k):
+        return dict(settings=dict(settings), before=dict(ev.target_markets))
+
+    def rs_post(ev, c, res, settings, *a, **k):
+        F = type(ev).__name__ + ".setup"
+        cfg = c["settings"]
+        if c["before"] and not getattr(ev, "_verif_setup_done", False):
+            raise ContractViolation(F, "a newly created rule has no targets before its set-up (no state shared between rule instances or runs)", dict(inherited=sorted(c["before"])))
+        ev._verif_setup_done = True
+        want = dict(c["before"]); want.update({n: ev.simulator.name2market[n] for n in cfg["targetMarkets"]})
+        if set(ev.target_markets) != set(want) or any(ev.target_markets[n] is not want[n] for n in want):
+            raise ContractViolation(F, "the rule's target markets are the previous ones plus exactly the configured names", dict(got=sorted(ev.target_markets), configured=cfg["targetMarkets"], before=sorted(c["before"])))
+        if ev.trigger_change_rate != cfg["triggerChangeRate"] or (isinstance(ev, TradingHaltRule) and ev.halting_time_length != cfg["haltingTimeLength"]):
+            raise ContractViolation(F, "rate and lengths are the configured ones")
+    wrap(PriceLimitRule, "setup", rs_pre, rs_post)
+    wrap(TradingHaltRule, "setup", rs_pre, rs_post)
+
     # ghost: the configured execution flag of each session
     from pams.session import Session
 
